@@ -84,6 +84,8 @@ def load_items(interp, st, item):
 def call(interp, fr, st, pc, path, fn, r, args, t):
     h = TABLE.get(path)
     if h is None:
+        h = _int_dispatch(path)
+    if h is None:
         for pref, hh in PREFIX:
             if path.startswith(pref):
                 h = hh
@@ -979,5 +981,423 @@ TABLE.update({
     "std::iter::Iterator::collect": it_collect,
     "std::iter::Iterator::skip": it_skip,
 })
+
+# ---------------------------------------------------------------------------------- integers
+_INT_RE = _re.compile(r"^core::num::<impl (u8|u16|u32|u64|u128|usize|i8|i16|i32|i64|isize)>::(\w+)$")
+
+
+def int_method(i, fr, st, pc, a, t, fn, r, name=None, tyname=None):
+    from .absint import w_add, w_sub, w_shl, w_shr, w_not
+    x = a[0]
+    if not isinstance(x, W):
+        raise Undecided("integer method %s on %r" % (name, x))
+    w = x.width
+    conc = all(isinstance(v, W) and v.val is not None for v in a)
+
+    def opt(v):
+        return some(v) if v is not None else NONE
+    if name in ("wrapping_shl", "wrapping_shr", "unbounded_shl", "unbounded_shr", "overflowing_shl", "overflowing_shr", "checked_shl", "checked_shr"):
+        k = a[1]
+        if k.val is None:
+            raise Undecided("symbolic shift amount")
+        left = name.endswith("shl")
+        big = k.val >= w
+        if name.startswith("wrapping") or name.startswith("overflowing"):
+            res = w_shl(x, k.val % w) if left else w_shr(x, k.val % w)
+            if name.startswith("overflowing"):
+                return _ret(i, st, pc, Agg("tuple", None, 0, (res, wbool(big))))
+            return _ret(i, st, pc, res)
+        if name.startswith("unbounded"):
+            return _ret(i, st, pc, wconst(w, 0) if big else (w_shl(x, k.val) if left else w_shr(x, k.val)))
+        return _ret(i, st, pc, NONE if big else some(w_shl(x, k.val) if left else w_shr(x, k.val)))
+    if name in ("wrapping_add", "wrapping_sub"):
+        return _ret(i, st, pc, (w_add if name.endswith("add") else w_sub)(x, a[1])[0])
+    if name in ("overflowing_add", "overflowing_sub"):
+        res, c = (w_add if name.endswith("add") else w_sub)(x, a[1])
+        return _ret(i, st, pc, Agg("tuple", None, 0, (res, W(1, bits=[c]))))
+    if name in ("checked_add", "checked_sub", "saturating_add", "saturating_sub", "checked_mul", "wrapping_mul", "saturating_mul", "pow", "checked_pow", "wrapping_neg", "abs_diff", "min", "max", "rem_euclid", "div_euclid", "checked_div", "checked_rem", "next_power_of_two", "is_power_of_two", "ilog2", "leading_zeros", "trailing_ones", "leading_ones", "count_zeros", "rotate_left", "rotate_right", "swap_bytes", "reverse_bits"):
+        if not conc:
+            raise Undecided("symbolic %s" % name)
+        M = (1 << w) - 1
+        xv = x.val
+        yv = a[1].val if len(a) > 1 else None
+        if name == "checked_add":
+            return _ret(i, st, pc, opt(W(w, val=xv + yv) if xv + yv <= M else None))
+        if name == "checked_sub":
+            return _ret(i, st, pc, opt(W(w, val=xv - yv) if xv >= yv else None))
+        if name == "saturating_add":
+            return _ret(i, st, pc, W(w, val=min(M, xv + yv)))
+        if name == "saturating_sub":
+            return _ret(i, st, pc, W(w, val=max(0, xv - yv)))
+        if name == "checked_mul":
+            return _ret(i, st, pc, opt(W(w, val=xv * yv) if xv * yv <= M else None))
+        if name == "wrapping_mul":
+            return _ret(i, st, pc, W(w, val=xv * yv))
+        if name == "saturating_mul":
+            return _ret(i, st, pc, W(w, val=min(M, xv * yv)))
+        if name == "pow":
+            if xv ** yv > M:
+                return i.panic(st, pc, "attempt to multiply with overflow (pow)", fr, t)
+            return _ret(i, st, pc, W(w, val=xv ** yv))
+        if name == "checked_pow":
+            return _ret(i, st, pc, opt(W(w, val=xv ** yv) if xv ** yv <= M else None))
+        if name == "wrapping_neg":
+            return _ret(i, st, pc, W(w, val=-xv))
+        if name == "abs_diff":
+            return _ret(i, st, pc, W(w, val=abs(xv - yv)))
+        if name in ("min", "max"):
+            return _ret(i, st, pc, W(w, val=min(xv, yv) if name == "min" else max(xv, yv)))
+        if name in ("rem_euclid", "checked_rem"):
+            if yv == 0:
+                return _ret(i, st, pc, NONE) if name.startswith("checked") else i.panic(st, pc, "remainder by zero", fr, t)
+            return _ret(i, st, pc, some(W(w, val=xv % yv)) if name.startswith("checked") else W(w, val=xv % yv))
+        if name in ("div_euclid", "checked_div"):
+            if yv == 0:
+                return _ret(i, st, pc, NONE) if name.startswith("checked") else i.panic(st, pc, "division by zero", fr, t)
+            return _ret(i, st, pc, some(W(w, val=xv // yv)) if name.startswith("checked") else W(w, val=xv // yv))
+        if name == "next_power_of_two":
+            return _ret(i, st, pc, W(w, val=1 if xv <= 1 else 1 << (xv - 1).bit_length()))
+        if name == "is_power_of_two":
+            return _ret(i, st, pc, wbool(xv != 0 and xv & (xv - 1) == 0))
+        if name == "ilog2":
+            if xv == 0:
+                return i.panic(st, pc, "ilog2 of zero", fr, t)
+            return _ret(i, st, pc, wconst(32, xv.bit_length() - 1))
+        if name == "leading_zeros":
+            return _ret(i, st, pc, wconst(32, w - xv.bit_length()))
+        if name == "trailing_ones":
+            return _ret(i, st, pc, wconst(32, ((~xv & M) & -(~xv & M)).bit_length() - 1 if xv != M else w))
+        if name == "leading_ones":
+            return _ret(i, st, pc, wconst(32, w - ((~xv) & M).bit_length()))
+        if name == "count_zeros":
+            return _ret(i, st, pc, wconst(32, w - bin(xv).count("1")))
+        if name in ("rotate_left", "rotate_right"):
+            k = yv % w
+            if name == "rotate_right":
+                k = (w - k) % w
+            return _ret(i, st, pc, W(w, val=((xv << k) | (xv >> (w - k))) & M if k else xv))
+        if name == "swap_bytes":
+            return _ret(i, st, pc, W(w, val=int.from_bytes(xv.to_bytes(w // 8, "little"), "big")))
+        if name == "reverse_bits":
+            return _ret(i, st, pc, W(w, val=int(format(xv, "0%db" % w)[::-1], 2)))
+    if name == "count_ones":
+        return count_ones(i, fr, st, pc, a, t, fn, r)
+    if name == "trailing_zeros":
+        return trailing_zeros(i, fr, st, pc, a, t, fn, r)
+    raise Undecided("unmodelled:integer method %s" % name)
+
+
+# ---------------------------------------------------------------------------------- sequence comparison
+def _seq_values(i, st, v):
+    """elements of a slice / array / Vec / Box<[T]> value or reference"""
+    while isinstance(v, Ptr) and v.sl is None:
+        tgt = i.read_ptr(st, v)
+        if isinstance(tgt, (Ptr, Arr)):
+            v = tgt
+        else:
+            break
+    if isinstance(v, Arr):
+        return list(v.elems)
+    if isinstance(v, Ptr):
+        return list(i.slice_elems(st, v))
+    raise Undecided("sequence view of %r" % (v,))
+
+
+def seq_cmp(partial):
+    def f(i, fr, st, pc, a, t, fn, r):
+        la, lb = _seq_values(i, st, a[0]), _seq_values(i, st, a[1])
+        if all(isinstance(v, W) and v.val is not None for v in la + lb):
+            ka, kb = [v.val for v in la], [v.val for v in lb]
+            res = ordering((ka > kb) - (ka < kb))
+        elif all(isinstance(v, W) for v in la + lb):
+            res = Opaque("lexcmp", (tuple(la), tuple(lb)))
+        else:
+            raise Undecided("comparison of non-integer sequences")
+        return _ret(i, st, pc, some(res) if partial else res)
+    return f
+
+
+def seq_eq(i, fr, st, pc, a, t, fn, r):
+    la, lb = _seq_values(i, st, a[0]), _seq_values(i, st, a[1])
+    if len(la) != len(lb):
+        return _ret(i, st, pc, wbool(False))
+    acc = wbool(True)
+    for x, y in zip(la, lb):
+        if not (isinstance(x, W) and isinstance(y, W)):
+            raise Undecided("equality of non-integer sequences")
+        acc = b_and(acc, w_eq(x, y))
+    return _ret(i, st, pc, acc)
+
+
+# ---------------------------------------------------------------------------------- more iterator adaptors
+def it_step_by(i, fr, st, pc, a, t, fn, r):
+    it, n = a
+    if n.val is None or n.val == 0:
+        raise Undecided("step_by amount")
+    return _ret(i, st, pc, Opaque("step_by", (it, n, wbool(True))))
+
+
+def it_take(i, fr, st, pc, a, t, fn, r):
+    it, n = a
+    if n.val is None:
+        raise Undecided("symbolic take")
+    return _ret(i, st, pc, Opaque("take", (it, n)))
+
+
+def it_chain(i, fr, st, pc, a, t, fn, r):
+    return _ret(i, st, pc, Opaque("chain", (a[0], a[1])))
+
+
+def it_filter(i, fr, st, pc, a, t, fn, r):
+    return _ret(i, st, pc, Opaque("filter", (a[0], a[1])))
+
+
+def filter_next(i, fr, st, pc, a, t, fn, r):
+    """next() of a filter adaptor whose predicate may be symbolic: one path per decision"""
+    itp = a[0]
+    it = i.read_ptr(st, itp)
+    if not (isinstance(it, Opaque) and it.kind == "filter"):
+        return generic_next(i, fr, st, pc, a, t, fn, r)
+    inner, clos = it.data
+    work = [(st, pc, inner)]
+    done = []
+    while work:
+        s, p, cur = work.pop()
+        cur2, item = iter_next(i, s, cur)
+        if item is None:
+            i.write_ptr(s, itp, Opaque("filter", (cur2, clos)))
+            done.append(Outcome("return", s, p, NONE))
+            continue
+        cell = new_cell()
+        s.mem[cell] = item
+        for o in call_closure(i, fr, s, p, clos, [Ptr(cell, ())]):
+            if o.kind != "return":
+                done.append(o)
+                continue
+            v = o.value
+            if isinstance(v, W) and v.val is not None:
+                if v.val:
+                    i.write_ptr(o.state, itp, Opaque("filter", (cur2, clos)))
+                    done.append(Outcome("return", o.state, o.pc, some(item)))
+                else:
+                    work.append((o.state, o.pc, cur2))
+            else:
+                s2 = o.state.fork()
+                i.write_ptr(o.state, itp, Opaque("filter", (cur2, clos)))
+                done.append(Outcome("return", o.state, o.pc + (v,), some(item)))
+                work.append((s2, o.pc + (b_not(v),), cur2))
+        if len(work) + len(done) > i.max_paths:
+            raise Undecided("path budget in filter")
+    return done
+
+
+_old_iter_next = iter_next
+
+
+def iter_next(interp, st, it, back=False):  # noqa: F811  (extends the basic adaptors)
+    k = it.kind if isinstance(it, Opaque) else None
+    if k == "step_by":
+        inner, n, first = it.data
+        cur = inner
+        if not first.val:
+            for _ in range(n.val - 1):
+                cur, x = _old_iter_next(interp, st, cur, back)
+                if x is None:
+                    return Opaque("step_by", (cur, n, wbool(False))), None
+        cur, x = iter_next(interp, st, cur, back)
+        return Opaque("step_by", (cur, n, wbool(False))), x
+    if k == "take":
+        inner, n = it.data
+        if n.val == 0:
+            return it, None
+        inner2, x = iter_next(interp, st, inner, back)
+        return Opaque("take", (inner2, usize(n.val - 1))), x
+    if k == "chain":
+        a_, b_ = it.data
+        if a_ is not None:
+            a2, x = iter_next(interp, st, a_, back)
+            if x is not None:
+                return Opaque("chain", (a2, b_)), x
+        b2, x = iter_next(interp, st, b_, back)
+        return Opaque("chain", (None, b2)), x
+    if k == "str_iter":
+        raise Undecided("iteration over the characters of a symbolic string")
+    return _old_iter_next(interp, st, it, back)
+
+
+# ---------------------------------------------------------------------------------- rand extras
+def rng_gen_range(i, fr, st, pc, a, t, fn, r):
+    rg = a[1]
+    if not (isinstance(rg, Agg) and len(rg.fields) == 2):
+        raise Undecided("gen_range argument %r" % (rg,))
+    lo, hi = rg.fields
+    if lo.val is None or hi.val is None:
+        raise Undecided("symbolic gen_range bounds")
+    inclusive = "Inclusive" in (rg.key or "")
+    span = hi.val - lo.val + (1 if inclusive else 0)
+    if span <= 0:
+        return i.panic(st, pc, "gen_range on an empty range", fr, t)
+    k = i.rng_calls
+    i.rng_calls += 1
+    if span == 1:
+        return _ret(i, st, pc, W(lo.width, val=lo.val))
+    nb = (span - 1).bit_length()
+    if lo.val == 0 and span == 1 << nb:
+        return _ret(i, st, pc, W(lo.width, bits=[B.atom("rng%d[%d]" % (k, b)) for b in range(nb)] + [ZERO] * (lo.width - nb)))
+    # not a power-of-two span: the draw is not a plain copy of generator bits
+    return _ret(i, st, pc, W(lo.width, bits=[B.atom("rngrange%d[%d]" % (k, b)) for b in range(nb)] + [ZERO] * (lo.width - nb)) if lo.val == 0 else wtop(lo.width))
+
+
+def rng_gen(i, fr, st, pc, a, t, fn, r):
+    out_ty = (r or fn)["args"][-1] if (r or fn).get("args") else None
+    w = out_ty.get("w") if isinstance(out_ty, dict) and out_ty.get("k") == "uint" else None
+    if w is None:
+        raise Undecided("Rng::gen of a non-integer type")
+    k = i.rng_calls
+    i.rng_calls += 1
+    return _ret(i, st, pc, W(w, bits=[B.atom("rng%d[%d]" % (k, b)) for b in range(w)]))
+
+
+def next_u32(i, fr, st, pc, a, t, fn, r):
+    k = i.rng_calls
+    i.rng_calls += 1
+    return _ret(i, st, pc, W(32, bits=[B.atom("rng%d[%d]" % (k, b)) for b in range(32)]))
+
+
+TABLE.update({
+    "std::iter::Iterator::step_by": it_step_by,
+    "std::iter::Iterator::take": it_take,
+    "std::iter::Iterator::chain": it_chain,
+    "std::iter::Iterator::filter": it_filter,
+    "<std::iter::Filter<I, P> as std::iter::Iterator>::next": filter_next,
+    "<std::iter::StepBy<I> as std::iter::Iterator>::next": generic_next,
+    "<std::iter::Take<I> as std::iter::Iterator>::next": generic_next,
+    "<std::iter::Skip<I> as std::iter::Iterator>::next": generic_next,
+    "<std::iter::Chain<A, B> as std::iter::Iterator>::next": generic_next,
+    "core::slice::cmp::<impl std::cmp::Ord for [T]>::cmp": seq_cmp(False),
+    "core::slice::cmp::<impl std::cmp::PartialOrd for [T]>::partial_cmp": seq_cmp(True),
+    "std::array::<impl std::cmp::Ord for [T; N]>::cmp": seq_cmp(False),
+    "std::array::<impl std::cmp::PartialOrd for [T; N]>::partial_cmp": seq_cmp(True),
+    "<std::vec::Vec<T, A> as std::cmp::Ord>::cmp": seq_cmp(False),
+    "<std::boxed::Box<T, A> as std::cmp::Ord>::cmp": seq_cmp(False),
+    "<std::boxed::Box<T, A> as std::cmp::PartialOrd>::partial_cmp": seq_cmp(True),
+    "core::slice::cmp::<impl std::cmp::PartialEq<[U]> for [T]>::eq": seq_eq,
+    "rand::Rng::gen_range": rng_gen_range,
+    "rand::Rng::gen": rng_gen,
+    "<rand::prelude::ThreadRng as rand::RngCore>::next_u32": next_u32,
+})
+
+
+def iter_next_multi(i, fr, st, pc, it):
+    """like iter_next but supports adaptors whose closures may split paths (filter, map).
+    -> list of (state, pc, iterator', item-or-None) plus non-return outcomes"""
+    k = it.kind if isinstance(it, Opaque) else None
+    if k == "filter":
+        inner, clos = it.data
+        res, others = [], []
+        work = [(st, pc, inner)]
+        while work:
+            s, p, cur = work.pop()
+            subs, oth = iter_next_multi(i, fr, s, p, cur)
+            others.extend(oth)
+            for s1, p1, cur2, item in subs:
+                if item is None:
+                    res.append((s1, p1, Opaque("filter", (cur2, clos)), None))
+                    continue
+                cell = new_cell()
+                s1.mem[cell] = item
+                for o in call_closure(i, fr, s1, p1, clos, [Ptr(cell, ())]):
+                    if o.kind != "return":
+                        others.append(o)
+                        continue
+                    v = o.value
+                    if isinstance(v, W) and v.val is not None:
+                        if v.val:
+                            res.append((o.state, o.pc, Opaque("filter", (cur2, clos)), item))
+                        else:
+                            work.append((o.state, o.pc, cur2))
+                    else:
+                        s2 = o.state.fork()
+                        res.append((o.state, o.pc + (v,), Opaque("filter", (cur2, clos)), item))
+                        work.append((s2, o.pc + (b_not(v),), cur2))
+            if len(work) + len(res) > i.max_paths:
+                raise Undecided("path budget in filter")
+        return res, others
+    if k == "map":
+        inner, clos = it.data
+        res, others = [], []
+        subs, oth = iter_next_multi(i, fr, st, pc, inner)
+        others.extend(oth)
+        for s1, p1, cur2, item in subs:
+            if item is None:
+                res.append((s1, p1, Opaque("map", (cur2, clos)), None))
+                continue
+            for o in call_closure(i, fr, s1, p1, clos, [item]):
+                if o.kind != "return":
+                    others.append(o)
+                else:
+                    res.append((o.state, o.pc, Opaque("map", (cur2, clos)), o.value))
+        return res, others
+    if k in ("enumerate", "rev", "take", "step_by", "chain", "zip") and _has_split_adaptor(it):
+        raise Undecided("adaptor %s over a filter/map" % k)
+    it2, item = iter_next(i, st, it)
+    return [(st, pc, it2, item)], []
+
+
+def _has_split_adaptor(it):
+    if isinstance(it, Opaque):
+        if it.kind in ("filter", "map"):
+            return True
+        return any(_has_split_adaptor(x) for x in it.data)
+    return False
+
+
+def multi_next(i, fr, st, pc, a, t, fn, r):
+    itp = a[0]
+    it = i.read_ptr(st, itp)
+    subs, others = iter_next_multi(i, fr, st, pc, it)
+    outs = list(others)
+    for s1, p1, it2, item in subs:
+        i.write_ptr(s1, itp, it2)
+        outs.append(Outcome("return", s1, p1, NONE if item is None else some(item)))
+    return outs
+
+
+def it_collect(i, fr, st, pc, a, t, fn, r):  # noqa: F811
+    src = a[0]
+    work = [(st, pc, [], src)]
+    done = []
+    while work:
+        s, p, acc, cur = work.pop()
+        subs, others = iter_next_multi(i, fr, s, p, cur)
+        done.extend(others)
+        for s1, p1, cur2, item in subs:
+            if item is None:
+                cell = new_cell()
+                s1.mem[cell] = Arr(acc)
+                done.append(Outcome("return", s1, p1, Ptr(cell, (), (0, len(acc)), "vec")))
+            else:
+                work.append((s1, p1, acc + [item], cur2))
+        if len(work) + len(done) > i.max_paths:
+            raise Undecided("path budget in collect")
+    return done
+
+
+TABLE.update({
+    "std::iter::Iterator::collect": it_collect,
+    "<std::iter::Filter<I, P> as std::iter::Iterator>::next": multi_next,
+    "<std::iter::Map<I, F> as std::iter::Iterator>::next": multi_next,
+})
+
+
+def _int_dispatch(path):
+    m = _INT_RE.match(path)
+    if not m:
+        return None
+    name = m.group(2)
+
+    def h(i, fr, st, pc, a, t, fn, r):
+        return int_method(i, fr, st, pc, a, t, fn, r, name=name, tyname=m.group(1))
+    return h
 
 PREFIX = []
